@@ -1,0 +1,218 @@
+//go:build verif
+
+// Contracts for package fpgo, part 2: Stream / Set / StreamSet (C04 persistence, C05 twins).
+package fpgo
+
+// ===================================================================================================
+// C04 - Stream / MapSet / StreamSet are persistent.  view(s) = the sequence *s.
+// Every method: the result's view is the one its definition prescribes; the receiver's and the arguments' views are
+// unchanged; and - proved by the automatic "frame" obligations on every store and by the (empty) modifies sets of the
+// callees - nothing that existed before the call is written, so every earlier collection keeps its elements.
+// A result is either the receiver itself or owns storage allocated by the call.
+// Methods marked "prop C04,C05" are also the generic halves of twin pairs: the interface{} family gets the SAME contract
+// text through the "twin" lines below and is verified against its own bodies.
+
+//@ define SV_SAME(s) = *s == old(*s) && unchanged(*s)
+
+//@ func StreamFromArray
+//@   prop C04
+//@   ensures view: r0 != nil && fresh(r0) && *r0 == list
+
+//@ func StreamFrom
+//@   prop C04
+//@   ensures view: r0 != nil && fresh(r0) && *r0 == list
+
+//@ func (StreamForInterfaceDef).FromArray
+//@   prop C04,C05
+//@   ensures view: r0 != nil && fresh(r0) && *r0 == list
+
+//@ func (StreamDef).ToArray
+//@   prop C04,C05
+//@   requires streamSelf != nil
+//@   ensures copy: seqeq(r0, *streamSelf) && fresh(r0)
+//@   ensures same: SV_SAME(streamSelf)
+//@ twin (StreamDef).ToArray (StreamForInterfaceDef).ToArray prop C04,C05
+
+//@ func (StreamDef).Len
+//@   prop C04,C05
+//@   pure
+//@   requires streamSelf != nil
+//@   ensures def: r0 == len(*streamSelf)
+//@ twin (StreamDef).Len (StreamForInterfaceDef).Len prop C04,C05
+
+//@ func (StreamDef).Get
+//@   prop C04,C05
+//@   pure
+//@   requires streamSelf != nil && 0 <= i && i < len(*streamSelf)
+//@   ensures def: r0 == (*streamSelf)[i]
+//@ twin (StreamDef).Get (StreamForInterfaceDef).Get prop C04,C05
+
+//@ func (StreamDef).Contains
+//@   prop C04,C05
+//@   requires streamSelf != nil
+//@   ensures def: r0 == exists(i, 0, len(*streamSelf), (*streamSelf)[i] == input)
+//@   ensures same: SV_SAME(streamSelf)
+//@ twin (StreamDef).Contains (StreamForInterfaceDef).Contains prop C04,C05
+
+//@ func (StreamDef).Clone
+//@   prop C04,C05
+//@   requires streamSelf != nil
+//@   ensures view: r0 != nil && fresh(r0) && fresh(*r0) && seqeq(*r0, *streamSelf)
+//@   ensures same: SV_SAME(streamSelf)
+//@ twin (StreamDef).Clone (StreamForInterfaceDef).Clone prop C04,C05
+
+//@ func (StreamDef).Map
+//@   prop C04,C05
+//@   requires streamSelf != nil
+//@   ensures view: r0 != nil && fresh(r0) && fresh(*r0) && len(*r0) == len(*streamSelf) && forall(i, 0, len(*streamSelf), (*r0)[i] == fn((*streamSelf)[i], i))
+//@   ensures same: SV_SAME(streamSelf)
+//@ twin (StreamDef).Map (StreamForInterfaceDef).Map prop C04,C05
+
+//@ func (StreamDef).Filter
+//@   prop C04,C05
+//@   ghost g (Array Int Int)
+//@   ghost pos (Array Int Int)
+//@   ghostset g = Filter_g
+//@   ghostset pos = Filter_pos
+//@   requires streamSelf != nil
+//@   ensures owned: r0 != nil && fresh(r0) && fresh(*r0)
+//@   ensures sub: forall(j, 0, len(*r0), 0 <= g[j] && g[j] < len(*streamSelf) && (*r0)[j] == (*streamSelf)[g[j]] && fn((*streamSelf)[g[j]], g[j]))
+//@   ensures mono: forall(j, 0, len(*r0), forall(l, 0, j, g[l] < g[j]))
+//@   ensures all: forall(k, 0, len(*streamSelf), fn((*streamSelf)[k], k) ==> 0 <= pos[k] && pos[k] < len(*r0) && g[pos[k]] == k)
+//@   ensures same: SV_SAME(streamSelf)
+//@ twin (StreamDef).Filter (StreamForInterfaceDef).Filter prop C04,C05
+
+//@ func (StreamDef).Reject
+//@   prop C04,C05
+//@   ghost g (Array Int Int)
+//@   ghost pos (Array Int Int)
+//@   ghostset g = Reject_g
+//@   ghostset pos = Reject_pos
+//@   requires streamSelf != nil
+//@   ensures owned: r0 != nil && fresh(r0) && fresh(*r0)
+//@   ensures sub: forall(j, 0, len(*r0), 0 <= g[j] && g[j] < len(*streamSelf) && (*r0)[j] == (*streamSelf)[g[j]] && !fn((*streamSelf)[g[j]], g[j]))
+//@   ensures mono: forall(j, 0, len(*r0), forall(l, 0, j, g[l] < g[j]))
+//@   ensures all: forall(k, 0, len(*streamSelf), !fn((*streamSelf)[k], k) ==> 0 <= pos[k] && pos[k] < len(*r0) && g[pos[k]] == k)
+//@   ensures same: SV_SAME(streamSelf)
+//@ twin (StreamDef).Reject (StreamForInterfaceDef).Reject prop C04,C05
+
+//@ func (StreamDef).Distinct
+//@   prop C04,C05
+//@   ghost g (Array Int Int)
+//@   ghost pos (Array Int Int)
+//@   ghostset g = Distinct_g
+//@   ghostset pos = Distinct_pos
+//@   requires streamSelf != nil
+//@   ensures owned: r0 != nil && fresh(r0) && fresh(*r0)
+//@   ensures sub: forall(j, 0, len(*r0), 0 <= g[j] && g[j] < len(*streamSelf) && (*r0)[j] == (*streamSelf)[g[j]] && forall(l, 0, g[j], (*streamSelf)[l] != (*streamSelf)[g[j]]))
+//@   ensures mono: forall(j, 0, len(*r0), forall(l, 0, j, g[l] < g[j]))
+//@   ensures all: forall(k, 0, len(*streamSelf), forall(l, 0, k, (*streamSelf)[l] != (*streamSelf)[k]) ==> 0 <= pos[k] && pos[k] < len(*r0) && g[pos[k]] == k)
+//@   ensures same: SV_SAME(streamSelf)
+//@ twin (StreamDef).Distinct (StreamForInterfaceDef).Distinct prop C04,C05
+
+//@ func (StreamDef).Minus
+//@   prop C04,C05
+//@   ensures shorter: len(*r0) <= len(*streamSelf)
+//@   ghost g (Array Int Int)
+//@   ghost pos (Array Int Int)
+//@   ghostset g = Minus_g
+//@   ghostset pos = Minus_pos
+//@   requires streamSelf != nil
+//@   ensures none: !(input != nil && len(*input) > 0) ==> r0 == streamSelf
+//@   ensures owned: input != nil && len(*input) > 0 ==> r0 != nil && fresh(r0) && fresh(*r0)
+//@   ensures sub: input != nil && len(*input) > 0 ==> forall(j, 0, len(*r0), 0 <= g[j] && g[j] < len(*streamSelf) && (*r0)[j] == (*streamSelf)[g[j]] && !CONTAINS(*input, (*streamSelf)[g[j]]))
+//@   ensures mono: input != nil && len(*input) > 0 ==> forall(j, 0, len(*r0), forall(l, 0, j, g[l] < g[j]))
+//@   ensures all: input != nil && len(*input) > 0 ==> forall(k, 0, len(*streamSelf), !CONTAINS(*input, (*streamSelf)[k]) ==> 0 <= pos[k] && pos[k] < len(*r0) && g[pos[k]] == k)
+//@   ensures same: SV_SAME(streamSelf) && (input != nil ==> SV_SAME(input))
+//@ twin (StreamDef).Minus (StreamForInterfaceDef).Minus prop C04,C05
+
+//@ func (StreamDef).RemoveItem
+//@   prop C04,C05
+//@   ensures shorter: len(*r0) <= len(*streamSelf)
+//@   ghost g (Array Int Int)
+//@   ghost pos (Array Int Int)
+//@   ghostset g = Minus_g
+//@   ghostset pos = Minus_pos
+//@   requires streamSelf != nil
+//@   ensures none: !(len(input) > 0) ==> r0 == streamSelf
+//@   ensures owned: len(input) > 0 ==> r0 != nil && fresh(r0) && fresh(*r0)
+//@   ensures sub: len(input) > 0 ==> forall(j, 0, len(*r0), 0 <= g[j] && g[j] < len(*streamSelf) && (*r0)[j] == (*streamSelf)[g[j]] && !CONTAINS(input, (*streamSelf)[g[j]]))
+//@   ensures mono: len(input) > 0 ==> forall(j, 0, len(*r0), forall(l, 0, j, g[l] < g[j]))
+//@   ensures all: len(input) > 0 ==> forall(k, 0, len(*streamSelf), !CONTAINS(input, (*streamSelf)[k]) ==> 0 <= pos[k] && pos[k] < len(*r0) && g[pos[k]] == k)
+//@   ensures same: SV_SAME(streamSelf) && unchanged(input)
+//@ twin (StreamDef).RemoveItem (StreamForInterfaceDef).RemoveItem prop C04,C05
+
+//@ func (StreamDef).Reverse
+//@   prop C04,C05
+//@   requires streamSelf != nil
+//@   ensures view: r0 != nil && fresh(r0) && fresh(*r0) && len(*r0) == len(*streamSelf) && forall(i, 0, len(*streamSelf), (*r0)[i] == (*streamSelf)[len(*streamSelf)-1-i])
+//@   ensures same: SV_SAME(streamSelf)
+//@ twin (StreamDef).Reverse (StreamForInterfaceDef).Reverse prop C04,C05
+
+//@ func (StreamDef).Concat
+//@   prop C04,C05
+//@   ghost start (Array Int Int)
+//@   ghostset start = Concat_start
+//@   requires streamSelf != nil
+//@   ensures none: len(slices) == 0 ==> r0 == streamSelf
+//@   ensures owned: len(slices) > 0 ==> r0 != nil && fresh(r0) && fresh(*r0)
+//@   ensures offsets: len(slices) > 0 ==> start[0] == len(*streamSelf) && forall(k, 0, len(slices), start[k+1] == start[k] + len(slices[k])) && len(*r0) == start[len(slices)]
+//@   ensures mine: len(slices) > 0 ==> forall(i, 0, len(*streamSelf), (*r0)[i] == (*streamSelf)[i])
+//@   ensures rest: len(slices) > 0 ==> forall2(k, 0, len(slices), j, 0, len(slices[k]), (*r0)[start[k]+j] == slices[k][j])
+//@   ensures same: SV_SAME(streamSelf)
+//@ twin (StreamDef).Concat (StreamForInterfaceDef).Concat prop C04,C05
+
+//@ func (StreamDef).Append
+//@   prop C04,C05
+//@   requires streamSelf != nil
+//@   ensures view: r0 != nil && (r0 == streamSelf || (fresh(r0) && fresh(*r0))) && len(*r0) == len(*streamSelf) + len(item) && forall(i, 0, len(*streamSelf), (*r0)[i] == (*streamSelf)[i]) && forall(j, 0, len(item), (*r0)[len(*streamSelf)+j] == item[j])
+//@   ensures same: SV_SAME(streamSelf) && unchanged(item)
+//@ twin (StreamDef).Append (StreamForInterfaceDef).Append prop C04,C05
+
+//@ func (StreamDef).IsSubset
+//@   prop C04,C05
+//@   requires streamSelf != nil
+//@   ensures empty: input == nil || len(*input) == 0 || len(*streamSelf) == 0 ==> r0 == false
+//@   ensures def: input != nil && len(*input) > 0 && len(*streamSelf) > 0 ==> r0 == forall(i, 0, len(*streamSelf), CONTAINS(*input, (*streamSelf)[i]))
+//@   ensures same: SV_SAME(streamSelf)
+//@ twin (StreamDef).IsSubset (StreamForInterfaceDef).IsSubset prop C04,C05
+
+//@ func (StreamDef).IsSuperset
+//@   prop C04,C05
+//@   requires streamSelf != nil
+//@   ensures empty-input: input == nil || len(*input) == 0 ==> r0 == true
+//@   ensures empty-self: input != nil && len(*input) > 0 && len(*streamSelf) == 0 ==> r0 == false
+//@   ensures def: input != nil && len(*input) > 0 && len(*streamSelf) > 0 ==> r0 == forall(i, 0, len(*input), CONTAINS(*streamSelf, (*input)[i]))
+//@   ensures same: SV_SAME(streamSelf)
+//@ twin (StreamDef).IsSuperset (StreamForInterfaceDef).IsSuperset prop C04,C05
+
+//@ func (StreamDef).Intersection
+//@   prop C04,C05
+//@   ghost g (Array Int Int)
+//@   ghost pos (Array Int Int)
+//@   ghostset g = Intersection_g
+//@   ghostset pos = Intersection_pos
+//@   requires streamSelf != nil
+//@   ensures empty: input == nil || len(*input) == 0 ==> r0 != nil && fresh(r0) && len(*r0) == 0
+//@   ensures owned: input != nil && len(*input) > 0 ==> r0 != nil && fresh(r0) && freshOrNil(*r0)
+//@   ensures sub: input != nil && len(*input) > 0 ==> forall(j, 0, len(*r0), 0 <= g[j] && g[j] < len(*streamSelf) && (*r0)[j] == (*streamSelf)[g[j]] && CONTAINS(*input, (*streamSelf)[g[j]]) && forall(l, 0, g[j], (*streamSelf)[l] != (*streamSelf)[g[j]]))
+//@   ensures mono: input != nil && len(*input) > 0 ==> forall(j, 0, len(*r0), forall(l, 0, j, g[l] < g[j]))
+//@   ensures all: input != nil && len(*input) > 0 ==> forall(k, 0, len(*streamSelf), CONTAINS(*input, (*streamSelf)[k]) && forall(l, 0, k, (*streamSelf)[l] != (*streamSelf)[k]) ==> 0 <= pos[k] && pos[k] < len(*r0) && g[pos[k]] == k)
+//@   ensures same: SV_SAME(streamSelf) && (input != nil ==> SV_SAME(input))
+//@ twin (StreamDef).Intersection (StreamForInterfaceDef).Intersection prop C04,C05
+
+// the generic Remove builds a new stream; the interface{} Remove is the documented in-place mutator (returns the receiver)
+//@ func (StreamDef).Remove
+//@   prop C04
+//@   requires streamSelf != nil
+//@   ensures out-of-range: index < 0 || index >= len(*streamSelf) ==> r0 == streamSelf
+//@   ensures removed: 0 <= index && index < len(*streamSelf) ==> r0 != nil && fresh(r0) && fresh(*r0) && len(*r0) == len(*streamSelf)-1 && forall(i, 0, index, (*r0)[i] == (*streamSelf)[i]) && forall(i, index, len(*r0), (*r0)[i] == (*streamSelf)[i+1])
+//@   ensures same: SV_SAME(streamSelf)
+
+//@ func (StreamForInterfaceDef).Remove
+//@   prop C04
+//@   modifies streamSelf, *streamSelf
+//@   requires streamSelf != nil
+//@   ensures same-object: r0 == streamSelf
+//@   ensures out-of-range: index < 0 || index >= old(len(*streamSelf)) ==> *streamSelf == old(*streamSelf) && unchanged(*streamSelf)
+//@   ensures removed: 0 <= index && index < old(len(*streamSelf)) ==> len(*streamSelf) == old(len(*streamSelf))-1 && forall(i, 0, index, (*streamSelf)[i] == old((*streamSelf)[i])) && forall(i, index, len(*streamSelf), (*streamSelf)[i] == old((*streamSelf)[i+1]))
